@@ -38,12 +38,31 @@ class Template:
         return out
 
 
-def template_of(e: ast.AST, fn_node: Optional[ast.AST] = None, depth: int = 0) -> Optional[Template]:
-    """Abstract a string-valued expression into constant segments and holes. None if not string-like."""
+def template_of(e: ast.AST, fn_node: Optional[ast.AST] = None, depth: int = 0, const_names: Optional[ast.AST] = None) -> Optional[Template]:
+    """Abstract a string-valued expression into constant segments and holes. None if not string-like.
+    `fn_node`: locals bound once are written out (sub-templates); `const_names`: a function node in which locals bound once to a
+    *constant* string (`q = '"' * 3`) are read as that text, everything else stays a hole."""
     t = Template(e)
     if isinstance(e, ast.Constant) and isinstance(e.value, str):
         t.parts.append(e.value)
         return t
+    if isinstance(e, ast.BinOp) and isinstance(e.op, ast.Mult):
+        a_, b_ = e.left, e.right
+        if isinstance(b_, ast.Constant) and isinstance(b_.value, str):
+            a_, b_ = b_, a_
+        if isinstance(a_, ast.Constant) and isinstance(a_.value, str) and isinstance(b_, ast.Constant) and isinstance(b_.value, int) and 0 <= b_.value <= 16:
+            t.parts.append(a_.value * b_.value)
+            return t
+    if isinstance(e, ast.Name) and const_names is not None and fn_node is None and depth < 2:
+        defs_ = [n for n in own_nodes(const_names) if isinstance(n, ast.Assign) and any(isinstance(x, ast.Name) and x.id == e.id for x in n.targets)]
+        others_ = [n for n in own_nodes(const_names) if isinstance(n, (ast.AugAssign, ast.AnnAssign, ast.For, ast.NamedExpr)) and any(
+            isinstance(x, ast.Name) and x.id == e.id and isinstance(x.ctx, ast.Store) for x in ast.walk(getattr(n, "target", n)))]
+        if len(defs_) == 1 and not others_:
+            sub_ = template_of(defs_[0].value, None, depth + 1, None)
+            if sub_ is not None and all(isinstance(p_, str) for p_ in sub_.parts):
+                sub_.node = e
+                return sub_
+        return None
     if isinstance(e, ast.JoinedStr):
         for v in e.values:
             if isinstance(v, ast.Constant):
@@ -53,7 +72,7 @@ def template_of(e: ast.AST, fn_node: Optional[ast.AST] = None, depth: int = 0) -
                 t.parts.append(v.value)
         return t
     if isinstance(e, ast.BinOp) and isinstance(e.op, ast.Add):
-        a, b = template_of(e.left, fn_node, depth), template_of(e.right, fn_node, depth)
+        a, b = template_of(e.left, fn_node, depth, const_names), template_of(e.right, fn_node, depth, const_names)
         if a is None and b is None:
             return None
         for side, sub in ((e.left, a), (e.right, b)):
